@@ -15,7 +15,7 @@ class Inspections(PipelineBase):
     def inspection_result(self,run,name,a):
         g=run.ghost['insp'][name]
         if g['fail']: return err(self.b.variant('Error','RunLibError',[mk_string('spawn failed',True)]))
-        ld=LinkD(name,{},dict(g['products']),None if g['none'] else Int(32,True,g['rv']))
+        ld=LinkD(name,dict(g.get('materials',{})),dict(g['products']),None if g['none'] else Int(32,True,g['rv']))
         return ok(self.b.metablock(self.b.wrap_link(self.mk_link(run,ld)),[]))
     def mk_args(self,run):
         b=self.b; F0,OWN=0,1
@@ -33,6 +33,7 @@ class Inspections(PipelineBase):
         dirs={():[]}
         if present: dirs[()].append(FileD('s0',F0,BlockD('link',LinkD('s0',{'a':[1]},{'b':[2]}),[lsig])))
         insps=[]; run.ghost['insp']={}; ig=[]
+        left={}      # inspections share the working directory: what earlier ones left behind (their products, their link files) is recorded by later ones
         for i in range(self.ninsp):
             nm='i%d'%i
             fail=bool(run.pick(2,'insp_fail%d'%i))
@@ -43,8 +44,12 @@ class Inspections(PipelineBase):
             d=InspD(nm)
             if ir==1: d.exp_prod=[b.rule('Disallow','*')]; d.exp_prod_json=[['DISALLOW','*']]
             if nostatus and prods: raise Infeasible()       # natively an empty command cannot create products
-            gi={'fail':fail,'rv':rv,'products':prods,'rules_fail':(ir==1 and bool(prods)),'name':nm,'none':nostatus}
-            d.dyn_run=(lambda gi: (lambda m: ['/nonexistent-command-for-replay'] if gi['fail'] else ([] if gi['none'] else ['sh','-c',('touch x; ' if gi['products'] else '')+'exit %d'%model_value(m,gi['rv'])])))(gi)
+            mats=dict(left); own_x='x' in prods
+            if own_x and 'x' in left: prods['x']=left['x']       # `touch x` on an existing file leaves its content alone
+            prods=dict(left,**prods)
+            gi={'fail':fail,'rv':rv,'products':prods,'materials':mats,'own_x':own_x,'rules_fail':(ir==1 and bool(prods)),'name':nm,'none':nostatus}
+            left=dict(prods); left[nm+'.link']=[z3.BitVec('linkfile_%d'%i,8)]
+            d.dyn_run=(lambda gi: (lambda m: ['/nonexistent-command-for-replay'] if gi['fail'] else ([] if gi['none'] else ['sh','-c',('touch x; ' if gi['own_x'] else '')+'exit %d'%model_value(m,gi['rv'])])))(gi)
             run.ghost['insp'][nm]=gi; ig.append(gi); insps.append(d)
         lay=LayoutD([F0],[step],insps,expires=PAST if expired else FAR_FUTURE)
         lb=BlockD('layout',lay,[osig]); caller=[(OWN,OWN)]
